@@ -289,6 +289,17 @@ func harnessC17() {
 }
 
 // C19: bounded call sequences; count launches
+// The scripted plugin of this run never listens: connecting for the graceful shutdown fails and Kill takes its
+// force path (the graceful path is C04's subject).
+//verif:model net.Dial
+func mNetDial(network, address string) (net.Conn, error) { return nil, errors.New("connect: connection refused") }
+
+//verif:model (*net.TCPAddr).String
+func mTCPAddrString(a *net.TCPAddr) string { return "127.0.0.1:1" }
+
+//verif:model (*net.TCPAddr).Network
+func mTCPAddrNetwork(a *net.TCPAddr) string { return "tcp" }
+
 func harnessC19() {
 	launches := 0
 	first := vChoice(2) // 0: the plugin prints garbage (start fails), 1: a valid line
